@@ -284,6 +284,10 @@ func (vc *VC) pureStdCall(s *State, call *ast.CallExpr, key string, sig *types.S
 		t := sig.Results().At(i).Type()
 		res[i] = vc.loaded(s, t, App(fmt.Sprintf("std.%s.r%d", smtName(key), i), sortOf(t), args...), "res")
 	}
+	if call != nil {
+		vc.recordCall(s, exprStr(call.Fun), sig, args, nil)
+		vc.recordCall(s, exprStr(call.Fun), sig, nil, res)
+	}
 	return res
 }
 
